@@ -304,6 +304,11 @@ mod hist {
     pub struct Wrap<T> { pub inner: T, pub more: Vec<Wrap<T>> }
     #[derive(CandidType, Deserialize, Debug, PartialEq, Clone)]
     pub enum Expr { Lit(i32), Add(Box<Expr>, Box<Expr>), Neg { e: Box<Expr> } }
+    // two different types with the SAME name in different modules (the memo is keyed by TypeId, names are only for printing)
+    pub mod a { use candid::{CandidType, Deserialize};
+        #[derive(CandidType, Deserialize, Debug, PartialEq, Clone)] pub struct Node { pub x: u8, pub next: Option<Box<Node>> } }
+    pub mod b { use candid::{CandidType, Deserialize};
+        #[derive(CandidType, Deserialize, Debug, PartialEq, Clone)] pub struct Node { pub y: String, pub kids: Vec<Node> } }
     pub fn tree() -> Tree {
         let leaf = |n: i32| Tree { value: Int::from(n), kids: Kids::Leaf };
         Tree { value: Int::from(-7), kids: Kids::Pair(Box::new(leaf(1)), Box::new(leaf(-2))) }
@@ -333,6 +338,9 @@ fn history_case(perm: &str) -> String {
                 'W' => rt!(Wrap { inner: 5u16, more: vec![Wrap { inner: 6u16, more: vec![] }] }, Wrap<u16>),
                 'V' => rt!(Wrap { inner: Kids::Leaf, more: vec![] }, Wrap<Kids>),
                 'E' => rt!(Expr::Add(Box::new(Expr::Lit(1)), Box::new(Expr::Neg { e: Box::new(Expr::Lit(2)) })), Expr),
+                'A' => rt!(a::Node { x: 1, next: Some(Box::new(a::Node { x: 2, next: None })) }, a::Node),
+                'B' => rt!(b::Node { y: "r".into(), kids: vec![b::Node { y: "k".into(), kids: vec![] }] }, b::Node),
+                'P' => rt!((a::Node { x: 3, next: None }, b::Node { y: "p".into(), kids: vec![] }), (a::Node, b::Node)),
                 'y' => { let _ = <Tree as candid::CandidType>::ty(); format!("{}:ty", c) }     // type derivation only
                 'z' => { let _ = <Kids as candid::CandidType>::ty(); format!("{}:ty", c) }
                 _ => format!("{}:?", c),
